@@ -294,6 +294,7 @@ class Finish(_Tree):
 
 class Init(_Tree):
     file, func, name = FILE, "ScopeMetrics.__init__", "C09/metrics:ScopeMetrics.__init__"
+    loop_may_be_absent = True
 
     def setup(self, it, env):
         st = it.st
@@ -344,7 +345,19 @@ class Init(_Tree):
                  z3.If(V.is_none(self.completion), z3.BoolVal(len(cbs) == 0), z3.BoolVal(len(mine) == 1 and len(cbs) == 1)))
 
     def on_raise(self, it, exc):
-        it.st.check("P1:creating-a-scope-never-raises", z3.BoolVal(False))
+        st = it.st
+        # the one legitimate failure: no event loop in the creating thread (a worker thread inherits the caller's context and
+        # with it the current scope).  "Leaving a scope never fails because of completion bookkeeping": the scope that was
+        # current must then be left exactly as it was - a half-built scope registered under it would break its completion.
+        st.check("P1:creating-a-scope-fails-only-for-want-of-an-event-loop", z3.BoolVal(bool(st.ghost.get("$no_loop"))))
+        if it.kind(self.parent) == "ref":
+            t = self.terms(it)
+            pa = V.addr(self.parent)
+            old = self.old["heap"]
+            oF = lambda n: old.get(n, st.heap0.get(n, st.field_array(n)))      # noqa: E731
+            ohi = z3.Select(oF("$hi"), V.addr(z3.Select(oF("_nested"), pa)))
+            st.check("P1:a-scope-whose-creation-failed-is-not-registered-under-the-scope-it-was-created-in",
+                     t["hi"](pa) == ohi)
 
 
 class Time(_Tree):
